@@ -101,25 +101,34 @@ func main() {
 			} else {
 				loop := ""
 				n := 0
+				puts := func(body *ast.BlockStmt, recv, idx string) bool {
+					has := false
+					ast.Inspect(body, func(y ast.Node) bool {
+						if c, ok := y.(*ast.CallExpr); ok && f.Render(c.Fun) == recv+".PutLIDsInQueue" &&
+							len(c.Args) == 1 && f.Render(c.Args[0]) == "lids["+idx+"]" {
+							has = true
+						}
+						return true
+					})
+					return has
+				}
 				ast.Inspect(fd.Body, func(x ast.Node) bool {
-					if rs, ok := x.(*ast.RangeStmt); ok {
+					switch rs := x.(type) {
+					case *ast.RangeStmt:
 						n++
-						has := false
-						ast.Inspect(rs.Body, func(y ast.Node) bool {
-							if c, ok := y.(*ast.CallExpr); ok && f.Render(c.Fun) == f.Render(rs.Value)+".PutLIDsInQueue" &&
-								len(c.Args) == 1 && f.Render(c.Args[0]) == "lids["+f.Render(rs.Key)+"]" {
-								has = true
-							}
-							return true
-						})
-						if has {
+						if puts(rs.Body, f.Render(rs.Value), f.Render(rs.Key)) {
 							loop = "for " + f.Render(rs.Key) + ", " + f.Render(rs.Value) + " := range " + f.Render(rs.X)
+						}
+					case *ast.ForStmt:
+						n++
+						if rs.Init != nil && rs.Cond != nil && rs.Post != nil && (puts(rs.Body, "tl", "i") || puts(rs.Body, "tlids[i]", "i")) {
+							loop = "for " + f.Render(rs.Init) + "; " + f.Render(rs.Cond) + "; " + f.Render(rs.Post)
 						}
 					}
 					return true
 				})
 				if n != 1 || loop == "" {
-					e.Missing("queueLoop", "addLIDsToTokens: expected one range loop calling tl.PutLIDsInQueue(lids[i])")
+					e.Missing("queueLoop", "addLIDsToTokens: expected one loop calling PutLIDsInQueue(lids[i])")
 				} else {
 					e.Str("queueLoop", loop, "addLIDsToTokens: the loop that queues the LIDs token by token (collector order)")
 				}
@@ -157,6 +166,33 @@ func main() {
 			} else {
 				evs := callEvents(f, fd.Body, []string{"GetAllTokenLIDs.GetLIDs", "mids.GetVals", "rids.GetVals"}, nil)
 				e.Strs("getIDsIndexOrder", sorted(evs), "snapshot order in activeDataProvider.getIDsIndex")
+			}
+			if fd := f.Func("activeFetchIndex", "GetBlocksOffsets"); fd == nil {
+				e.Missing("fetchBlocksRefresh", "activeFetchIndex.GetBlocksOffsets not found")
+			} else {
+				refresh := false
+				ast.Inspect(fd.Body, func(x ast.Node) bool {
+					if is, ok := x.(*ast.IfStmt); ok && strings.Contains(f.Render(is.Cond), ">= len(di.blocksOffsets)") {
+						for _, a := range fieldAssigns(f, is.Body, "di") {
+							if strings.HasPrefix(a.s, "blocksOffsets=") && strings.HasSuffix(a.s, ".GetVals()") {
+								refresh = true
+							}
+						}
+					}
+					return true
+				})
+				rets := 0
+				ast.Inspect(fd.Body, func(x ast.Node) bool {
+					if rt, ok := x.(*ast.ReturnStmt); ok && len(rt.Results) == 1 && f.Render(rt.Results[0]) == "di.blocksOffsets[num]" {
+						rets++
+					}
+					return true
+				})
+				if rets != 1 {
+					e.Missing("fetchBlocksRefresh", "GetBlocksOffsets: expected `return di.blocksOffsets[num]`")
+				} else {
+					e.Bool("fetchBlocksRefresh", refresh, "activeFetchIndex.GetBlocksOffsets re-reads DocBlocks when the index is past the provider's snapshot")
+				}
 			}
 			if fd := f.Func("activeDataProvider", "Search"); fd == nil {
 				e.Missing("searchClamp", "activeDataProvider.Search not found")
@@ -224,6 +260,14 @@ func main() {
 				evs = append(evs, callEvents(f, n, append([]string{"isActiveState", "indexWg.Add", "indexWg.Done", "active.Append"}, locks...), nil)...)
 			}
 			e.Strs("proxyAppendOrder", sorted(evs), "proxyFrac.Append, main path")
+			var errEvs []ev
+			ast.Inspect(fd.Body, func(x ast.Node) bool {
+				if is, ok := x.(*ast.IfStmt); ok && strings.Contains(f.Render(is.Cond), "err != nil") {
+					errEvs = append(errEvs, callEvents(f, is.Body, []string{"indexWg.Done", "indexWg.Add"}, nil)...)
+				}
+				return true
+			})
+			e.Strs("appendErrorPath", sorted(errEvs), "proxyFrac.Append: WaitGroup calls on the path where active.Append returned an error")
 		}
 		if fd := f.Func("proxyFrac", "Seal"); fd == nil {
 			e.Missing("proxySealOrder", "proxyFrac.Seal not found")
